@@ -7,9 +7,16 @@ import (
 	"time"
 
 	"github.com/gotd/td/bin"
+	"github.com/gotd/td/clock"
 	"github.com/gotd/td/internal/verifrt"
 	"github.com/gotd/td/mt"
 )
+
+type verifOffsetClock struct{ off time.Duration }
+
+func (c verifOffsetClock) Now() time.Time                      { return time.Now().Add(c.off) }
+func (c verifOffsetClock) Timer(d time.Duration) clock.Timer   { return clock.System.Timer(d) }
+func (c verifOffsetClock) Ticker(d time.Duration) clock.Ticker { return clock.System.Ticker(d) }
 
 func verifPong(c *Conn, pingID int64) {
 	b := &bin.Buffer{}
@@ -108,6 +115,9 @@ func VerifC43_loop() {
 	verifrt.Bubble(func() {
 		h := newVerifMT()
 		c := h.c
+		// the connection's clock may be corrected against the local one (clock/ntp style): the
+		// timeout is a duration and must not depend on the offset
+		c.clock = verifOffsetClock{time.Duration(verifrt.Fork("offset", 3)-1) * time.Hour}
 		interval := time.Duration(30+30*verifrt.Fork("interval", 2)) * time.Second
 		timeout := time.Duration(5+10*verifrt.Fork("timeout", 2)) * time.Second
 		c.pingInterval, c.pingTimeout = interval, timeout
